@@ -8,15 +8,21 @@ FAILS = (PUSH(STR, s('none')), ('FAILWITH',))
 SELF = addr(4, 51)
 OTHER = addr(4, 52)
 fam = vmfam.fam
+TKT = ('ticket', STR)
+TK = lambda who, c, n: ('t', who, s(c), n)
 SPL = lambda x, y: ('SEQ', (PUSH(P(NAT, NAT), p(i(x), i(y))), ('SWAP',), ('SPLIT_TICKET',)))
 MK = ('SEQ', (('TICKET',), ('IF_NONE', FAILS, ())))
 MK2 = ('SEQ', (('TICKET',), ('IF_NONE', FAILS, ()), ('DUG', 2), ('TICKET',), ('IF_NONE', FAILS, ()), ('PAIR', 2)))
 ALPH = [('TICKET',), MK, MK2, ('READ_TICKET',), ('SWAP',), DROP(1), ('DIG', 2), SPL(1, 2), SPL(0, 3), SPL(3, 0), SPL(2, 2), SPL(1, 1), SPL(2, 1),
         ('IF_NONE', FAILS, (('UNPAIR', 2),)), ('IF_NONE', FAILS, ()), ('PAIR', 2), ('JOIN_TICKETS',), ('UNPAIR', 2),
-        PUSH(STR, s('c')), PUSH(NAT, i(2)), PUSH(NAT, i(0)), ('SOME',), ('NIL', ('ticket', STR)), ('CONS',), ('CDR',), ('CAR',)]
+        PUSH(STR, s('c')), PUSH(NAT, i(2)), PUSH(NAT, i(0)), ('SOME',), ('NIL', ('ticket', STR)), ('CONS',), ('CDR',), ('CAR',), ('UPDATE', 1)]
 fam('ticket', depth=5, maxstack=4, envs=[{'SELF_ADDRESS': SELF}],
     inits=[(S(STR, s('c')), S(NAT, i(3))), (S(STR, s('c')), S(NAT, i(0))), (S(NAT, i(7)), S(NAT, i(2))),
-           (S(STR, s('c')), S(NAT, i(3)), S(STR, s('d')), S(NAT, i(1))), (S(STR, s('c')), S(NAT, i(3)), S(STR, s('c')), S(NAT, i(1)))],
+           (S(STR, s('c')), S(NAT, i(3)), S(STR, s('d')), S(NAT, i(1))), (S(STR, s('c')), S(NAT, i(3)), S(STR, s('c')), S(NAT, i(1))),
+           # tickets that arrived from outside (parameter / storage): same contents, minted by somebody else / by this contract
+           # a comb whose leaf type UPDATE n changes from ticket-free to ticket-carrying under the same outer constructor (option nat -> option (ticket string))
+           (S(STR, s('c')), S(NAT, i(3)), S(P(OPT(NAT), NAT), p(some(i(1)), i(5)))),
+           (S(TKT, TK(OTHER, 'c', 3)), S(TKT, TK(SELF, 'c', 2))), (S(TKT, TK(OTHER, 'c', 3)), S(TKT, TK(OTHER, 'c', 1)), S(STR, s('c')), S(NAT, i(2)))],
     alphabet=ALPH)
 
 
@@ -81,7 +87,7 @@ def run(ctx):
                 '(matching and non-matching contents), pair/option/list wrapping, DROP/SWAP/DIG. Leg A: TLC checks NoZeroTicket and TicketConservation (per (ticketer, contents) '
                 'total grows only in a step that executes TICKET) on the reference semantics. Leg B: every program replayed in pytezos, whole stack compared (ticketer, contents, '
                 'amount of every ticket); DUP of every ticket-carrying slot must be refused')
-    ctx.assumptions = ['tickets are created by TICKET only (no literal form); the self address is fixed by the environment']
+    ctx.assumptions = ['tickets are created by TICKET or are present in the initial stack (as received in a parameter / storage), minted by this or by another contract; the self address is fixed by the environment']
     f = dict(vmfam.FAMILIES['ticket'])
     if ctx.quick:
         f['depth'] = 4
